@@ -3121,6 +3121,11 @@ pub fn verif_parse_ice_server_uri(input: &str) -> Result<(String, String, u16, S
 /// Verification accessors (compiled only with `--cfg rustrtc_verif`).
 #[cfg(rustrtc_verif)]
 impl IceTransport {
+    /// Run one TURN refresh round (what the runner does on its 25 s tick) now.
+    pub async fn verif_run_turn_refresh(&self) {
+        IceTransportRunner::run_turn_refresh(&self.inner).await
+    }
+
     /// Transaction ids of the STUN requests this agent has outstanding.
     pub fn verif_pending_transactions(&self) -> Vec<[u8; 12]> {
         let mut v: Vec<[u8; 12]> = self.inner.pending_transactions.lock().keys().copied().collect();
